@@ -174,9 +174,19 @@ def check(cx):
         if v not in arms:
             cx.bad(r2, v, fa.where(), "no arm for %s" % v)
             continue
-        got = set_ops(dominated(fa, arms[v]))
-        cx.verdict(got == w, r2, v, fa.where(), "arm does %s" % sorted(got),
-                   "arm of %s does %s, expected %s" % (v, sorted(got), sorted(w)))
+        region = dominated(fa, arms[v])
+        got = set_ops(region)
+        # each classification step is unconditional: no way through the arm bypasses it
+        cond = []
+        for c in region_calls(fa, region):
+            m = c.callee.rsplit("::", 1)[-1]
+            if "BTreeSet" in c.callee and m in ("insert", "remove"):
+                exits = [b for b in fa.reachable(arms[v], blocked={c.bb}) if b not in region]
+                if exits:
+                    cond.append(m)
+        cx.verdict(got == w and not cond, r2, v, fa.where(), "arm does %s, unconditionally" % sorted(got),
+                   "arm of %s does %s%s, expected %s unconditionally: e.g. a COMMIT whose BEGIN was truncated away by a "
+                   "checkpoint is then not redone" % (v, sorted(got), (" (conditional: %s)" % cond) if cond else "", sorted(w)))
 
     # ---- C02.3 payload shape -----------------------------------------------------------
     r3 = cx.rule("C02.3", "TAB/FLOW: for each data record kind, Operation::{object_id,row_id} return Some exactly when "
